@@ -102,7 +102,16 @@ func VerifC09Render() {
 // VerifC09Refuse: paths that cannot be expressed are refused, never mistranslated.
 func VerifC09Refuse() {
 	var a, b JsonNode
-	switch vChoice(4) {
+	switch vChoice(6) {
+	case 4: // signed number-like keys, which jd's own reader would take for indices
+		k := strconv.Itoa(vInt(-12, 12))
+		if vChoice(2) == 1 {
+			k = "+" + strconv.Itoa(vInt(0, 12))
+		}
+		a, b = jsonObject{k: vNum()}, jsonObject{k: vNum()}
+	case 5: // a number-like key in the middle of the path
+		k := [...]string{"-3", "+1", "007", "12"}[vChoice(4)]
+		a, b = jsonObject{"x": jsonObject{k: jsonObject{"y": vNum()}}}, jsonObject{"x": jsonObject{k: jsonObject{"y": vNum()}}}
 	case 0:
 		a, b = jsonObject{"0": vNum()}, jsonObject{"0": vNum()}
 	case 1:
